@@ -277,8 +277,18 @@ class VM:
                 outs = list(self.exec_fn(self._cur_machine, self.mir.get(pname), [], keep_frame=True))
                 if len(outs) == 1 and outs[0][1] == 'ret': return outs[0][2]
             raise Unmodelled('promoted constant ' + pname)
-        # unit enum variant constants / unit structs: `std::option::Option::<X>::None`, `PhantomData::<..>`
         base = strip_generics(t)
+        nc = self.mir.named_consts().get(base.split('::')[-1].strip())
+        if nc is not None and re.match(r'^[\w:]+$', base.strip()):
+            ty, lit = nc
+            lit = lit.replace('_', '') if ty != 'f64' else lit
+            if ty == 'f64':
+                mm = re.match(r'^(-?[\d.]+(?:[eE][+-]?\d+)?)(f64)?$', lit.replace('_', ''))
+                if mm: return self.alg.const_txt(mm.group(1) + 'f64')
+            else:
+                mm = re.match(r'^(-?\d+)(u64|usize|i64|u32|i32)?$', lit)
+                if mm: return int(mm.group(1))
+        # unit enum variant constants / unit structs: `std::option::Option::<X>::None`, `PhantomData::<..>`
         segs = [x.strip() for x in base.split('::') if x.strip()]
         if len(segs) >= 2 and segs[-2] in self.enums and segs[-1] in self.enums[segs[-2]]:
             return Enum(self._variant_idx(segs[-2], segs[-1]), segs[-1], (), segs[-2])
